@@ -6,7 +6,10 @@ use crate::ringstream::f64_exact;
 use crate::rng::Rng;
 use rsdd::builder::bdd::RobddBuilder;
 use rsdd::builder::cache::AllIteTable;
-use rsdd::builder::BottomUpBuilder;
+use crate::cnfgen::*;
+use rsdd::builder::decision_nnf::{DecisionNNFBuilder, StandardDecisionNNFBuilder};
+use rsdd::builder::{BottomUpBuilder, TopDownBuilder};
+use rsdd::repr::VarOrder;
 use rsdd::constants::primes;
 use rsdd::repr::{create_semantic_hash_map, BddPtr, DDNNFPtr, VarLabel, WmcParams};
 use rsdd::util::semirings::{FiniteField, RealSemiring};
@@ -99,7 +102,144 @@ fn all_clear(pool: &[BddPtr]) -> bool {
     pool.iter().all(|p| walk(*p))
 }
 
+/// the queries that need no builder
+fn answer_dnnf<'a>(d: BddPtr<'a>, n: usize, q: &Q) -> String {
+    match q {
+        Q::W(w) => {
+            let mut m = HashMap::new();
+            for (i, (l, h)) in w.iter().enumerate() {
+                m.insert(
+                    VarLabel::new_usize(i),
+                    (FiniteField::<{ primes::U64_LARGEST }>::new(*l), FiniteField::<{ primes::U64_LARGEST }>::new(*h)),
+                );
+            }
+            d.unsmoothed_wmc(&WmcParams::new(m)).value().to_string()
+        }
+        Q::R(w) => {
+            let mut m = HashMap::new();
+            for (i, k) in w.iter().enumerate() {
+                m.insert(VarLabel::new_usize(i), (RealSemiring(1.0 - *k as f64 / 8.0), RealSemiring(*k as f64 / 8.0)));
+            }
+            f64_exact(d.unsmoothed_wmc(&WmcParams::new(m)).0)
+        }
+        Q::E(a) => {
+            let inst: Vec<bool> = (0..n).map(|x| (a >> x) & 1 == 1).collect();
+            (d.evaluate(&inst) as u8).to_string()
+        }
+        Q::N => d.count_nodes().to_string(),
+        _ => "unsupported".to_string(),
+    }
+}
+
+/// how a pool entry of a decision-DNNF line was obtained (so that a fresh builder can rebuild it)
+#[derive(Clone, Copy)]
+enum Def {
+    Root(bool),
+    Cond(usize, usize, bool),
+}
+
+fn rebuild<'a>(b: &'a StandardDecisionNNFBuilder<'a>, root: BddPtr<'a>, defs: &[Def], i: usize) -> BddPtr<'a> {
+    match defs[i] {
+        Def::Root(neg) => {
+            if neg {
+                root.neg()
+            } else {
+                root
+            }
+        }
+        Def::Cond(src, v, val) => {
+            let s = rebuild(b, root, defs, src);
+            b.condition(s, VarLabel::new_usize(v), val)
+        }
+    }
+}
+
+/// decision-DNNF variant: the diagrams are the result of top-down compilation, its negation, and
+/// the results of earlier conditionings (which share nodes with their arguments); queries are
+/// counts, evaluation, node counts and conditioning through `TopDownBuilder::condition`
+fn dnnf_query_line(rng: &mut Rng, maxvars: usize) -> String {
+    // mostly satisfiable CNFs with interior structure: clauses of two or three literals
+    let raw: RawCnf = if rng.chance(1, 5) {
+        gen_cnf(rng, maxvars, 2 * maxvars + 2, false)
+    } else {
+        let nv = rng.range(3, std::cmp::max(maxvars, 4) as u64) as usize;
+        let nc = rng.range(2, (nv + 2) as u64) as usize;
+        (0..nc)
+            .map(|_| {
+                let len = 2 + rng.below(2) as usize;
+                (0..len).map(|_| (rng.below(nv as u64) as usize, rng.coin())).collect()
+            })
+            .collect()
+    };
+    let cnf = to_cnf(&raw);
+    let n = cnf.num_vars();
+    let order = rng.perm(n);
+    let nq = rng.range(5, 16) as usize;
+    let mut defs: Vec<Def> = vec![Def::Root(false), Def::Root(true)];
+    let mut qs: Vec<(usize, Q)> = Vec::new();
+    for _ in 0..nq {
+        let i = if rng.chance(1, 2) { defs.len() - 1 - rng.below(std::cmp::min(defs.len(), 3) as u64) as usize } else { rng.below(defs.len() as u64) as usize };
+        let q = match rng.below(10) {
+            0 => Q::W((0..n).map(|_| (rng.below(5) as u128, rng.below(5) as u128)).collect()),
+            1 => Q::R((0..n).map(|_| rng.below(9)).collect()),
+            2 => Q::E(rng.below(1 << n) as usize),
+            3 | 4 => Q::N,
+            _ => {
+                let (v, val) = (rng.below(n as u64) as usize, rng.coin());
+                defs.push(Def::Cond(i, v, val));
+                Q::C(v, val)
+            }
+        };
+        qs.push((i, q));
+    }
+    let head = format!(
+        "query kind=dnnf n={} order={} cnf={} qs={}",
+        n,
+        csv(&order),
+        print_cnf(&cnf),
+        qs.iter().map(|(i, q)| format!("{}:{}", i, q.print())).collect::<Vec<_>>().join(",")
+    );
+    let mk = |order: &[usize]| VarOrder::new(&order.iter().map(|&x| VarLabel::new_usize(x)).collect::<Vec<_>>());
+    let r = guarded(|| {
+        rsdd::verif_hooks::set_table_capacity(Some(8));
+        let b = StandardDecisionNNFBuilder::new(mk(&order));
+        let root = b.compile_cnf_topdown(&cnf);
+        let mut pool: Vec<BddPtr> = vec![root, root.neg()];
+        let mut ans = Vec::new();
+        let mut trees = Vec::new();
+        let mut clear = String::new();
+        for (i, q) in qs.iter() {
+            trees.push(bdd_raw_string(pool[*i]));
+            match q {
+                Q::C(v, val) => {
+                    let c = b.condition(pool[*i], VarLabel::new_usize(*v), *val);
+                    pool.push(c);
+                    ans.push(bdd_raw_string(c));
+                }
+                _ => ans.push(answer_dnnf(pool[*i], n, q)),
+            }
+            clear.push(if all_clear(&pool) { '1' } else { '0' });
+        }
+        // each query alone on a freshly built copy of its argument
+        let mut fresh = Vec::new();
+        for (i, q) in qs.iter() {
+            let fb = StandardDecisionNNFBuilder::new(mk(&order));
+            let froot = fb.compile_cnf_topdown(&cnf);
+            let d = rebuild(&fb, froot, &defs, *i);
+            fresh.push(match q {
+                Q::C(v, val) => bdd_raw_string(fb.condition(d, VarLabel::new_usize(*v), *val)),
+                _ => answer_dnnf(d, n, q),
+            });
+        }
+        format!("ans={} fresh={} clear={} trees={}", ans.join("|"), fresh.join("|"), clear, trees.join("|"))
+    });
+    format!("{} => {}", head, r.unwrap_or_else(|e| e))
+}
+
 pub fn query_line(rng: &mut Rng, maxvars: usize, maxops: usize) -> String {
+    if rng.chance(1, 4) {
+        return dnnf_query_line(rng, maxvars);
+    }
     let n = rng.range(2, maxvars as u64) as usize;
     let nops = rng.range(6, maxops as u64) as usize;
     let prog = gen_program(rng, n, nops, false);
